@@ -2,6 +2,8 @@
   C09 — lazy clones clone exactly when, and as often as, they are consumed.
 -/
 import AnyVecModel.Proofs.Exec
+import AnyVecModel.Proofs.ExecLazy
+import AnyVecModel.Props.RefineMulti
 import AnyVecModel.Proofs.KernelValue
 namespace AnyVec
 namespace C09
@@ -35,18 +37,8 @@ theorem push_lazy_clones_once (w : World) (src dst i id : Nat) (s d d1 : VecSt) 
     push dst (.lazyElem src i) w =
       ({ w with vecs := w.vecs.set dst (d1.pushCell (.val w.created)),
                 created := w.created + 1,
-                ev := Event.clone id w.created :: (es.reverse ++ w.ev) }, .ok ()) := by
-  have hlt : dst < w.vecs.length := (List.getElem?_eq_some_iff.mp hv).1
-  have hd : w.vecs[dst] = d := (List.getElem?_eq_some_iff.mp hv).2
-  have hslt : src < w.vecs.length := (List.getElem?_eq_some_iff.mp hs).1
-  have hsdd : w.vecs[src] = s := (List.getElem?_eq_some_iff.mp hs).2
-  obtain ⟨h3, h1, _, _, _, _, _, _, _, _, h4⟩ := reserveOne_spec d d1 es hwf hr
-  have hl1 : d1.live = true := by rw [h4]; exact hl
-  have hb : i < s.cap := by have := hswf.len_le_cap; omega
-  have hne : ¬ dst = src := fun h => hsd h.symm
-  simp [push, valTy, getVec, hl, hlt, hd, hsl, hslt, hsdd, hty, pushUnchecked, WM.onUnwind, vecOp, hr, hl1,
-    valMoveInto, readElem, List.getElem?_set, hne, hsd, VecSt.readElem_ok, hb, hc, cloneElem, tick, hf, fresh,
-    World.writeCell, VecSt.writeCell_ok, h3, World.upd, VecSt.pushCell]
+                ev := Event.clone id w.created :: (es.reverse ++ w.ev) }, .ok ()) :=
+  AnyVec.push_lazy_clones_once w src dst i id s d d1 es hsd hs hsl hswf hi hc hv hl hwf hty hr hf
 
 /-- consequently `k` consumptions are `k` clones of the same root: by iterating the theorem above
 (the source is unchanged after each push, so its hypotheses hold again). The source stays usable:
@@ -85,6 +77,21 @@ theorem lazy_clone_is_the_source (b : Bool) :
       [.call "as_bytes_ptr" [], .call "copy_nonoverlapping_value" [], .call "consume" [], .call "mem::forget" []] := by
   have h := KernelTie.move_into_tie b
   exact ⟨h.2.2.1, h.2.2.2, h.1, h.2.1⟩
+
+/-! ### against the abstract state of all vectors (Props/RefineMulti.lean) -/
+
+/-- **a lazy clone clones exactly when it is consumed, and once**: in any world that shows an abstract state of all its
+vectors, `u.push(v.at(i).lazy_clone())` - however often the lazy clone was lazily cloned again before (`dp`) - leads to a
+world in which `u` has one more item, a fresh identity (the one clone made), and `v` and every other vector are as they
+were; or, when `i` is out of range, the element types differ or `u` has no room, to the same abstract state: creating and
+dropping a lazy clone costs nothing and destroys nothing. -/
+theorem lazy_clone_clones_once_when_consumed (cfg : Cfg) (w : World) (ms : RefineMulti.MSpec) (h : RefineMulti.MRel w ms)
+    (v u i dp : Nat) (hvu : v ≠ u) (a au : RefineMulti.AVec)
+    (hv : ms.vecs[v]? = some (some a)) (hu : ms.vecs[u]? = some (some au)) :
+    ∃ ms', RefineMulti.LazyStep ms u i a au ms' ∧
+      RefineMulti.MRel (World.step cfg (.push u (.lazyRef v i dp)) w).1 ms' ∧
+      (World.step cfg (.push u (.lazyRef v i dp)) w).2.notUb :=
+  RefineMulti.lazy_push_refines cfg w ms h v u i dp hvu a au hv hu
 
 end C09
 end AnyVec
